@@ -1,5 +1,6 @@
--- Property C06: parsing arbitrary bytes as a proof, and verifying any parsed proof, never panics and never
--- requests memory out of proportion to the input.
+-- Property C06, part 1 (parser and verifier front end): parsing arbitrary bytes as a proof, and the front end of
+-- `verify` up to and including `VerifierChannel::new`, never panic and never request memory out of proportion to the
+-- input.  (Part 2, WinterProofs/C06.lean: the WHOLE of `verify` for the instantiations of the reference verifier.)
 --
 -- What is proved here (for ALL byte strings / ALL parsed proofs, no size bound), about the executable model
 -- Winter/Model/Parse.lean, which mirrors the code after the repairs recorded in known_findings.json:
@@ -17,12 +18,10 @@
 --                            `verifyFrontNeverFails_false`.
 --   * regression witnesses: the inputs that made the pinned tree panic / abort now end in `err` / `eof`.
 -- Not modelled HERE: the rest of `verify()` after the channel has been built, the element conversions of the
--- public-coin seed, and the AIR's own callbacks; in general they are covered by the fuzz correspondence of
--- harness/src/bin/c06.rs only.  For ONE instantiation (64-bit field, Rp64_256, no auxiliary segment) the gap is closed
--- by the reference verifier: `WinterProofs.RefVerifier.refVerify_never_panics` (WinterProofs/RefVerifierTotal.lean,
--- on top of `parseProof_safe` / `verifyFront_safe_partial` of this file) proves for the WHOLE of `verify` that the
--- only panics on untrusted bytes are `AIR::new` and the AIR's callbacks in `evaluate_constraints` (finding
--- c06.verify.air-new).  It cannot be re-exported from this file: WinterProofs/RefVerifier.lean imports this file.
+-- public-coin seed, and the AIR's own callbacks.  WinterProofs/C06.lean closes that gap for the instantiations the
+-- executable reference verifier covers (on top of the theorems of this file, which WinterProofs/RefVerifier.lean
+-- imports); for the others (BLAKE3 / SHA3 hashers, the 128-bit field, AIRs with a Lagrange kernel column / GKR
+-- proof) it is covered by the fuzz correspondence of harness/src/bin/c06.rs only.
 import WinterProofs.Lemmas.C06Front
 import WinterProofs.Lemmas.C06Data
 
